@@ -3,8 +3,9 @@ import itertools, random
 from vlib import core, corr
 
 AREA = "C12"
-MODULES = ["TinsModel.Props.C12"]
-AUDIT = "Audit/C12.lean"
+SMALL_BUFFER_EDGE = []          # filled by run() from the generated table
+MODULES = ["TinsModel.Props.C12", "TinsModel.Props.Limits.C12"]   # + the constants / limits tied to the source (translator/gen_limits.py)
+AUDIT = ["Audit/C12.lean", "Audit/LimitsC12.lean"]
 LEVEL = "proof"
 HARNESS = "c12_ownership"
 HARNESS_EXTRA = ["-fno-access-control"]      # PtrPacket's constructor and two members without public accessors
@@ -39,6 +40,10 @@ MANIFEST = dict(
               "Hoare reasoning over a heap model of PDUOption, refinement to a value model) + model/impl "
               "correspondence on real objects with allocator census",
     design="DESIGN.md §6 C12")
+MANIFEST["note"] += (" Constants and limits of the C++ source that the model restates (translator/gen_limits.py -> Gen/Limits.lean: "
+                     "compiled probe + preprocessed function bodies at named anchors) are tied to the model's numerals by the "
+                     "theorems of lean/TinsModel/Props/Limits/C12.lean (audit: Audit/LimitsC12.lean); tools/LIMITS-INVENTORY.md lists "
+                     "what is tied and what is not.")
 
 # class table: must agree with harness/c12_ownership.cpp (checked at run time through the `classes` op)
 KINDS = {"p": 0, "c": 1, "f": 2}
@@ -255,7 +260,8 @@ def gen_case(rng, table, nops, classes=None):
             kk = rng.choice(["onew", "onew", "ocopy", "omove", "oassign", "oassign", "omassign", "odel"])
             i, j = rng.randrange(NSLOTS), rng.randrange(NSLOTS)
             if kk == "onew":
-                ln = rng.choice([0, 1, 7, 8, 9, 10, 16, 40, rng.randrange(0, 70)])
+                # payload lengths around PDUOption::small_buffer_size as the source currently has it (Gen/Limits)
+                ln = rng.choice([0, 1, 7, 8, 9, 10, 16, 40, rng.randrange(0, 70)] + SMALL_BUFFER_EDGE)
                 ops.append(f"onew {i} {rng.randrange(256)} {ln} {rng.randrange(256)}")
             elif kk == "odel":
                 ops.append(f"odel {i}")
@@ -507,7 +513,16 @@ def sig_of(kind, detail, case):
 
 
 def run(chk):
+    from translator import gen_limits
+    gen_limits.main([])          # Gen/Limits.lean: constants and limits read from the current source
+    chk.trusted.append("translator/gen_limits.py (constants / limits of the source -> Gen/Limits.lean: compiled probe + "
+                       "preprocessed function bodies at named anchors; tied to the model numerals by Props/Limits/C12.lean)")
+    sb = gen_limits.values().get("optionSmallBuffer")
+    # only lengths the literal list below does not contain: on the unchanged tree the random stream stays what it was
+    SMALL_BUFFER_EDGE[:] = [x for x in ([sb - 1, sb, sb + 1] if sb is not None and 1 <= sb < 4096 else [])
+                            if x not in (0, 1, 7, 8, 9, 10, 16, 40)]
     problems = chk.prove(MODULES, AUDIT, want_leanchecker=(chk.tier == "thorough"))
+    problems = gen_limits.name_failures(chk, problems, "C12")   # name the tie theorems that fail
     exe, err = core.build_harness(HARNESS, extra=HARNESS_EXTRA)
     if exe is None:
         chk.violation("implementation does not build: " + err[-1500:], ["build-error"], nofail=True)
